@@ -122,24 +122,6 @@ Fixpoint expr_sup (rt : rtab) (e : expr) : bool :=
       end
   end.
 
-(* ids with a slot in each open scope of the activation after t has executed *)
-Definition decl1 (Ds : list lset) (t : stmt) : list lset :=
-  match t with
-  | SMake _ _ (Some x) _ =>
-      match Ds with
-      | D :: r => (if memz x D then D else x :: D) :: r
-      | [] => []
-      end
-  | _ => Ds
-  end.
-
-(* parameter ids, in the order bind_params leaves the slots *)
-Fixpoint param_ids (ls : Z) (ps : list name) (k : Z) (acc : lset) : lset :=
-  match ps with
-  | [] => acc
-  | _ :: r => param_ids ls r (k + 1) ((ls + k) :: acc)
-  end.
-
 (* ESCAPING reads of a block: the ids its execution (callees included, nested function
    bodies excluded: they are separate activations) can look up while the running activation
    has no slot for them - those lookups continue into the scopes of the callers.  Only used
@@ -197,7 +179,9 @@ Record dctx := {
   d_pa : plan;            (* the plan under test *)
   d_acc : list Z;         (* ids of the statements of d_pa that the other plan executes *)
   d_rt : rtab;            (* read summaries *)
-  d_n : nat               (* iteration bound for loop heads *)
+  d_n : nat;              (* iteration bound for loop heads *)
+  d_calls : bool;         (* round 4: right-hand sides may call the functions of d_pt *)
+  d_pt : list Z           (* functions whose bodies are pure and trap-free (PlanCheck.pf_stmts) *)
 }.
 
 Definition in_acc (c : dctx) (sid : option Z) : bool :=
@@ -223,11 +207,15 @@ Definition echk (c : dctx) (fc : fctx) (Ds : list lset) (e : expr) : bool :=
 Definition decl_after (c : dctx) (Ds : list lset) (t : stmt) : list lset :=
   if in_plan_stmt (d_pa c) (stmt_sid t) then Ds else decl1 Ds t.
 
+(* right-hand side of a dropped store *)
+Definition rhs_ok (c : dctx) (e : expr) : bool :=
+  if d_calls c then pfe (d_pt c) e else pure_total e.
+
 (* a statement of d_acc: executed by the other run only *)
-Definition pruned_store_ok (Ds : list lset) (La : lset) (t : stmt) : bool :=
+Definition pruned_store_ok (c : dctx) (Ds : list lset) (La : lset) (t : stmt) : bool :=
   match t with
-  | SSet _ _ (Some x) e => memz x (concat Ds) && negb (memz x La) && pure_total e
-  | SMake _ _ (Some x) e => memz x (hd [] Ds) && negb (memz x La) && pure_total e
+  | SSet _ _ (Some x) e => memz x (concat Ds) && negb (memz x La) && rhs_ok c e
+  | SMake _ _ (Some x) e => memz x (hd [] Ds) && negb (memz x La) && rhs_ok c e
   | _ => false
   end.
 
@@ -253,7 +241,7 @@ Definition tr_stmts_with (c : dctx) (trs : fctx -> list lset -> stmt -> lset -> 
       | Some Lm =>
           if in_plan_stmt (d_pa c) (stmt_sid t) then
             if in_acc c (stmt_sid t) then
-              if pruned_store_ok Ds Lm t then Some Lm else None
+              if pruned_store_ok c Ds Lm t then Some Lm else None
             else if is_fun t then trs fc Ds t Lm     (* definitions are hoisted even when skipped *)
             else Some Lm
           else trs fc Ds t Lm
@@ -299,7 +287,8 @@ Fixpoint tr_stmt (c : dctx) (fc : fctx) (Ds : list lset) (t : stmt) (La : lset) 
            | Some f =>
                match rt_get (d_rt c) f with
                | Some R =>
-                   if nodupb (param_ids ls ps 0 []) then
+                   if nodupb (param_ids ls ps 0 []) &&
+                      (if d_calls c then pf_fun (pb_of c) (d_pt c) fid ls ps body else true) then
                      match blk {| f_R := R; f_brk := []; f_next := [] |}
                                [[]; param_ids ls ps 0 []] body [] with
                      | Some _ => Some La
@@ -325,8 +314,16 @@ Definition tr_block (c : dctx) (fc : fctx) (Ds : list lset) (b : list stmt) (La 
 Definition all_ids (prog : list stmt) : lset :=
   nodup Z.eq_dec (flat_map (fun t => flat_map expr_vars (stmt_exprs t)) (all_stmts_block prog)).
 
-Definition mk_ctx (prog : list stmt) (pa : plan) (acc : list Z) : dctx :=
-  {| d_pa := pa; d_acc := acc; d_rt := mk_rt pa prog; d_n := S (S (length (all_ids prog))) |}.
+Definition pb_plan (pa : plan) (acc : list Z) : plan :=
+  match pa with
+  | Some (ss, fs) => Some (filter (fun i => negb (memz i acc)) ss, fs)
+  | None => None
+  end.
+
+Definition mk_ctx_x (calls : bool) (prog : list stmt) (pa : plan) (acc : list Z) : dctx :=
+  {| d_pa := pa; d_acc := acc; d_rt := mk_rt pa prog; d_n := S (S (length (all_ids prog)));
+     d_calls := calls; d_pt := if calls then mk_pt (pb_plan pa acc) prog else [] |}.
+Definition mk_ctx := mk_ctx_x false.
 
 Definition root_fc (c : dctx) (prog : list stmt) : fctx :=
   {| f_R := esc_block (d_pa c) (d_rt c) [] prog; f_brk := []; f_next := [] |}.
@@ -337,6 +334,10 @@ Definition ds_ok_ctx (c : dctx) (prog : list stmt) : bool :=
 (* the hypothesis of the soundness theorem *)
 Definition ds_ok (prog : list stmt) (pa : plan) (acc : list Z) : bool :=
   ds_ok_ctx (mk_ctx prog pa acc) prog.
+
+(* round 4: the same with right-hand sides that call pure, trap-free user functions *)
+Definition ds_ok_x (prog : list stmt) (pa : plan) (acc : list Z) : bool :=
+  ds_ok_ctx (mk_ctx_x true prog pa acc) prog.
 
 (* ---------- integration with PlanCheck.plan_ok ---------- *)
 (* the entries of the residual plan that the liveness checker accepts one at a time (the
@@ -359,4 +360,17 @@ Definition plan_ok3 (prog : list stmt) (ss fs : list Z) : verdict3 :=
   let ok := ds_ok prog pa acc in
   let acc' := if ok then acc else [] in
   {| x_main := v; x_acc := acc'; x_checked := ds_ok prog pa acc';
+     x_residual := (filter (fun i => negb (memz i acc')) (fst (v_residual v)), snd (v_residual v)) |}.
+
+(* round 4 *)
+Definition ds_candidates_x (prog : list stmt) (pa : plan) : list Z :=
+  filter (fun i => ds_ok_x prog pa [i]) (stmts_of pa).
+
+Definition plan_ok4 (prog : list stmt) (ss fs : list Z) : verdict3 :=
+  let v := plan_ok prog ss fs in
+  let pa := Some (v_residual v) in
+  let acc := ds_candidates_x prog pa in
+  let ok := ds_ok_x prog pa acc in
+  let acc' := if ok then acc else [] in
+  {| x_main := v; x_acc := acc'; x_checked := ds_ok_x prog pa acc';
      x_residual := (filter (fun i => negb (memz i acc')) (fst (v_residual v)), snd (v_residual v)) |}.
